@@ -781,7 +781,7 @@ def _register_shared_args():
     unit(P, "load_patches", fuc=["yaw.catalog.catalog:load_patches", "yaw.catalog.catalog:get_id_from_patch_path"],
          cases=[dict(centers=False), dict(centers=True), dict(centers="catalog")], trusted=["iter_unordered contract"])(_C05.u_load_patches)
     unit(P, "Catalog.from_*.arguments", fuc=["yaw.catalog.catalog:Catalog.from_dataframe", "yaw.catalog.catalog:Catalog.from_file", "yaw.catalog.catalog:Catalog.from_random"],
-         cases=[dict(which=w, mode=m) for w in ("from_dataframe", "from_file", "from_random") for m in ("apply", "divide", "create") if not (w == "from_random" and m == "divide")])(_C18.u_from_args)
+         cases=[dict(which=w, mode=m) for w in ("from_dataframe", "from_file", "from_random") for m in ("apply", "divide", "create", "apply+num", "divide+num") if not (w == "from_random" and m.startswith("divide"))])(_C18.u_from_args)
 
 
 # _register_shared_args() is called by the driver after this module is fully imported (no import cycles)
